@@ -70,6 +70,33 @@ type Setup struct {
 	Sess     *gen.Session // optional: created by MakeSetup so that the policy can see emitted txs
 }
 
+// bounceProps: checks whose oracle observes one replica over a fault-free history. In half of their runs that
+// replica is killed and restarted between blocks now and then (core.Engine.DoBounce): the property has to hold on a
+// node that lost all in-memory state, not only on one that runs for ever. The other half stays fault-free.
+var bounceProps = map[string]bool{"C10": true, "C11": true, "C12": true, "C14": true, "C15": true, "C17": true, "C19": true, "C20": true}
+
+// BounceBetween kills and restarts the observed replica between two blocks with the given probability.
+func BounceBetween(prob float64) func(e *core.Engine, rng *rand.Rand, blockNo int) []*core.Step {
+	return func(e *core.Engine, rng *rand.Rand, blockNo int) []*core.Step {
+		if blockNo > 0 && rng.Float64() < prob {
+			return []*core.Step{{Kind: "bounce", Replica: 0}}
+		}
+		return nil
+	}
+}
+
+func chainBetween(a, b func(e *core.Engine, rng *rand.Rand, blockNo int) []*core.Step) func(e *core.Engine, rng *rand.Rand, blockNo int) []*core.Step {
+	if a == nil {
+		return b
+	}
+	if b == nil {
+		return a
+	}
+	return func(e *core.Engine, rng *rand.Rand, blockNo int) []*core.Step {
+		return append(a(e, rng, blockNo), b(e, rng, blockNo)...)
+	}
+}
+
 // ClusterProp is the shared implementation for properties decided on a simulated cluster.
 type ClusterProp struct {
 	Id         string
@@ -97,6 +124,9 @@ func (p *ClusterProp) Run(seed uint64, tier string, tr *core.Trace) (out *RunOut
 	if !replay {
 		rng = rand.New(rand.NewSource(int64(seed)))
 		su = p.MakeSetup(rng, tier, seed)
+		if bounceProps[p.Id] && rng.Intn(2) == 0 {
+			su.Between = chainBetween(su.Between, BounceBetween(0.07))
+		}
 		tr = &core.Trace{Property: p.Id, Seed: seed, Knobs: su.Knobs, Replicas: su.Replicas, Extra: su.Extra}
 	}
 	out.Trace = tr
@@ -161,6 +191,8 @@ func (p *ClusterProp) Run(seed uint64, tier string, tr *core.Trace) (out *RunOut
 			stepErr = e.DoRestart(st)
 		case "join":
 			stepErr = e.DoJoin(st)
+		case "bounce":
+			stepErr = e.DoBounce(st)
 		case "checks":
 			e.DoChecks(st)
 		case "boot":
